@@ -1,4 +1,4 @@
-import Aurora.Lemmas.MantarayRemove
+import Aurora.Lemmas.MantarayPersist
 /-!
 # C10 — Directory manifests map paths to the last written entry
 
@@ -14,9 +14,12 @@ each with a minimal history below and a `known:` entry); what is proved:
 hasPrefix on an in-memory manifest (own path and frame condition, edge splits, prefix limit, overwrites);
 (1b) `C10_remove_refines_guarded` — the same for histories with `remove`, under the explicit guard
 `Guarded` (every remove targets a mapped path that no other mapped path extends; no store / reload);
+(1c) `C10_store_reload_lookup_refines` — persistence for the build–store–reopen–read pattern: any adds,
+then `store`, `reload`, then any lookups on the lazily loaded manifest;
 (2) for *every* trie state (loaded, lazily loaded or reloaded; any history before it) a lookup of the
 path just added / just removed answers as the map does.
-Persistence across store / reload (inside its guard) and `hasPrefix` after a `remove` are tied to the code only by the differential run on histories that stay inside the guard.
+Further modification of a reopened manifest (inside its guard), `hasPrefix` on a reopened manifest or
+after a `remove` are tied to the code only by the differential run on histories that stay inside the guard.
 -/
 namespace Aurora.Mantaray
 
@@ -168,6 +171,106 @@ theorem C10_remove_refines_guarded (ops : List Op) (hg : Guarded {} ops) :
     | reload => exact absurd hg (by simp [Guarded])
     | hasPrefix p => exact absurd hg (by simp [Guarded])
 
+/-- building ops: adds of non-empty paths carrying metadata -/
+def BuildOp : Op → Prop
+  | .add p _ md => p ≠ [] ∧ md ≠ []
+  | _ => False
+
+/-- reading ops -/
+def ReadOp : Op → Prop
+  | .lookup _ => True
+  | _ => False
+
+/-- Persistence clause for the way the node uses manifests (build in memory, `Store`, later open by
+    reference and read): for every list of adds (non-empty paths, with metadata — any number, any
+    shared prefixes) followed by `store`, `reload` and any number of lookups, every answer — of the
+    adds, of `store` / `reload`, and of every lookup on the lazily loaded reopened manifest — is the
+    path map's.  Lookups load nodes in place; `obs_lookup` shows this never changes a later answer. -/
+theorem C10_store_reload_lookup_refines (adds reads : List Op)
+    (hadds : ∀ op ∈ adds, BuildOp op) (hreads : ∀ op ∈ reads, ReadOp op) :
+    (run State.new (adds ++ (Op.store :: Op.reload :: reads))).2 =
+      specRun {} (adds ++ (Op.store :: Op.reload :: reads)) := by
+  -- phase 3: reads on the reopened manifest
+  have H3 : ∀ (reads : List Op) (s : State) (sp : Spec), (∀ op ∈ reads, ReadOp op) → s.dead = false →
+      (∀ f q, q.length < f → obs f s.root q = sp.cur.find q) →
+      (run s reads).2 = specRun sp reads := by
+    intro reads
+    induction reads with
+    | nil => intro s sp _ _ _; rfl
+    | cons op rest ih =>
+      intro s sp hall hlive hsim
+      have hop := hall op (by simp)
+      have hrest : ∀ o ∈ rest, ReadOp o := fun o ho => hall o (by simp [ho])
+      cases op with
+      | lookup p =>
+        have hout := lookup_obs s.root p
+        simp only [run, specRun, step, hlive, Bool.false_eq_true, if_false, stepLive, specStep, hout,
+          hsim _ p (Nat.lt_succ_self _)]
+        congr 1
+        refine ih _ _ hrest (by simpa using hlive) ?_
+        intro f q hq
+        show obs f (lookup s.root p).1 q = _
+        unfold lookup
+        simp only
+        rw [obs_lookup]; exact hsim f q hq
+      | add p e md => exact absurd hop (by simp [ReadOp])
+      | remove p => exact absurd hop (by simp [ReadOp])
+      | store => exact absurd hop (by simp [ReadOp])
+      | reload => exact absurd hop (by simp [ReadOp])
+      | hasPrefix p => exact absurd hop (by simp [ReadOp])
+  -- phases 1 and 2: adds on the fresh trie, then store and reload
+  suffices H : ∀ (adds : List Op) (s : State) (sp : Spec), (∀ op ∈ adds, BuildOp op) → s.dead = false →
+      Fresh s.root → s.root.value = false → s.root.md = [] →
+      (∀ fl q, q.length < fl → sem fl s.root q = sp.cur.find q) →
+      (run s (adds ++ (Op.store :: Op.reload :: reads))).2 =
+        specRun sp (adds ++ (Op.store :: Op.reload :: reads)) from
+    H adds State.new {} hadds rfl Fresh.new rfl rfl (by
+      intro fl q hq
+      cases fl with
+      | zero => omega
+      | succ f =>
+        show sem (f + 1) Node.new q = PathMap.find [] q
+        rw [sem_noforks f Node.new rfl]; cases q <;> simp [semNode_new, PathMap.find])
+  intro adds
+  induction adds with
+  | nil =>
+    intro s sp _ hlive hfr hv hmd hsim
+    obtain ⟨n1, t, hs, hr⟩ := save_fresh_some hfr
+    simp only [List.nil_append, run, specRun, step, hlive, Bool.false_eq_true, if_false, stepLive, hs,
+      specStep, hr]
+    congr 2
+    refine H3 reads _ _ hreads rfl ?_
+    intro f q hq
+    have := obs_saved f s.root n1 t hfr hs hr false [] [] q hq
+    rw [hv, hmd] at this
+    show obs f (Node.ofRef t) q = _
+    rw [Node.ofRef, this, hsim f q hq]
+  | cons op rest ih =>
+    intro s sp hall hlive hfr hv hmd hsim
+    have hop := hall op (by simp)
+    have hrest : ∀ o ∈ rest, BuildOp o := fun o ho => hall o (by simp [ho])
+    cases op with
+    | add p e md =>
+      obtain ⟨hpne, hmdne⟩ := hop
+      have hm := hfr.mem
+      obtain ⟨n', hn'⟩ := add_isSome e md (p.length + 1) s.root p hm
+      obtain ⟨_, law⟩ := sem_add e md hmdne (p.length + 1) s.root p n' hm (by omega) hn'
+      have hfr' := fresh_add e md _ _ _ _ hfr hn'
+      have hown : n'.value = s.root.value ∧ n'.md = s.root.md := by
+        cases p with
+        | nil => exact absurd rfl hpne
+        | cons k t => exact add_own e md _ _ k t n' hm.loaded hn'
+      simp only [List.cons_append, run, specRun, step, hlive, Bool.false_eq_true, if_false, stepLive, hn',
+        specStep]
+      congr 1
+      exact ih _ _ hrest (by simpa using hlive) hfr' (by rw [hown.1, hv]) (by rw [hown.2, hmd])
+        (by intro fl q hq; rw [law fl q hq, find_insert, hsim fl q hq])
+    | lookup p => exact absurd hop (by simp [BuildOp])
+    | remove p => exact absurd hop (by simp [BuildOp])
+    | store => exact absurd hop (by simp [BuildOp])
+    | reload => exact absurd hop (by simp [BuildOp])
+    | hasPrefix p => exact absurd hop (by simp [BuildOp])
+
 /-- Refinement, add/lookup clause (partial): after `add p e md` (non-empty metadata) on ANY live
     manifest state, `lookup p` answers `(e, md)` — whatever was stored, reloaded, read or removed
     before.  Missing w.r.t. the full clause: that lookups of *other* paths are unchanged by the add,
@@ -251,6 +354,13 @@ theorem C10_full_counterexample : ¬ C10_full :=
   fun h => C10_remove_drops_extensions_counterexample (h _)
 
 /-! ## Non-vacuity -/
+
+/-- a build–store–reopen–read history (edge split, two levels) -/
+example : (∀ op ∈ [Op.add ab (r 1) kv, .add a (r 2) kv, .add ac (r 3) kv], BuildOp op) ∧
+    (∀ op ∈ [Op.lookup ab, .lookup a, .lookup x, .lookup ab], ReadOp op) := by
+  constructor <;> intro op h <;> simp only [List.mem_cons, List.mem_nil_iff, or_false] at h
+  · rcases h with rfl | rfl | rfl <;> simp [BuildOp, ab, a, ac, kv]
+  · rcases h with rfl | rfl | rfl | rfl <;> simp [ReadOp]
 
 /-- a history inside the remove guard: add, overwrite, remove a key without extensions, re-add -/
 example : Guarded {} [.add ab (r 1) kv, .add ac (r 2) kv, .lookup ab, .remove ab, .lookup ab, .lookup ac,
